@@ -22,7 +22,7 @@ class PyRaise(Exception):
 
 
 class Obligation:
-    __slots__ = ("name", "status", "ms", "solver", "model", "goal", "path", "note", "smt2", "kind")
+    __slots__ = ("name", "status", "ms", "solver", "model", "goal", "path", "note", "smt2", "kind", "decisions")
 
     def __init__(self, name, status, ms, solver, model=None, goal="", path=None, note="", smt2=None, kind="property"):
         self.name = name
@@ -35,6 +35,7 @@ class Obligation:
         self.note = note
         self.smt2 = smt2
         self.kind = kind
+        self.decisions = None
 
     def as_dict(self):
         return {
@@ -47,6 +48,7 @@ class Obligation:
             "note": self.note,
             "model": self.model,
             "kind": self.kind,
+            "decisions": self.decisions,
         }
 
 
@@ -223,6 +225,7 @@ class Ctx:
             ob = Obligation(full, "failed", ms, "z3", model=model, goal=goal_s, path=pathid, note=note, smt2=smt2, kind=kind)
         else:
             ob = Obligation(full, "undecided", ms, "z3", goal=goal_s, path=pathid, note=note + " reason=" + s.reason_unknown(), smt2=smt2, kind=kind)
+        ob.decisions = [int(x) for x in self.taken]
         self.results.append(ob)
         return ob.status == "discharged"
 
@@ -262,6 +265,14 @@ def explore(harness, world, unit_name, max_paths=4000, keep_smt=False, wall_budg
             harness(ctx)
         except PathEnd:
             pass
+        # vacuity guard: the path condition under which this path's obligations were discharged must be satisfiable
+        if ctx.results and ctx.pc:
+            r = ctx._check()
+            if r == z3.unsat:
+                for ob in ctx.results:
+                    if ob.status == "discharged":
+                        ob.status = "undecided"
+                        ob.note = (ob.note or "") + " vacuous: contradictory path condition"
         results.extend(ctx.results)
         covered |= ctx.covered
         solver_time += ctx.solver_time
